@@ -1,4 +1,5 @@
 import UrcuVerif.Lfht.Conc.SoloCas
+import UrcuVerif.Lfht.Conc.NoFreed
 import UrcuVerif.Props.C07
 /-!
 # C17 (hash-table facet) — lookups/traversals are wait-free; update operations never wait, they help
@@ -16,8 +17,8 @@ Proved for ALL reachable states:
   most once per stale value carried into the solo run — own steps keep the loaded values fresh, a failed CAS
   reloads, a CAS on fresh values succeeds.
 Stated, not proved: `solo_terminates` for add / add_unique / add_replace / replace / del (`C17Lfht_full`).
-Memory-safety side condition: nothing ahead of the walker has been reclaimed (`NoFreedAhead`; this is the
-`reclaim_safe` obligation of C07, an assumption here).
+The memory-safety side condition of the walk (nothing ahead of the walker has been reclaimed, `NoFreedAhead`) is no
+longer an assumption: it follows from layer S of C07 (`walker_no_freed_ahead`, `Lfht/Conc/NoFreed.lean`).
 -/
 namespace UrcuVerif.Lfht.Conc
 open UrcuVerif
@@ -26,7 +27,6 @@ open UrcuVerif
 def WalkerWaitFree : Prop :=
   ∀ c s t, Current c → Reach c s → t < c.n → (s.th t).wk ≠ .dupAdd →
     ((s.th t).pc = .lSize ∨ (s.th t).pc = .lHead ∨ (s.th t).pc = .fHead ∨ (s.th t).pc = .wNext ∨ (s.th t).pc = .wAssert) →
-    NoFreedAhead s (wstart s (s.th t)) →
     ∃ k s', k ≤ s.L.length + unl s + 5 ∧ solo c t k s = some s' ∧ (s'.th t).pc = .idle
 
 /-- the measure behind the bound: every hop along a `next` pointer of a published node strictly decreases `wmu` -/
@@ -83,7 +83,7 @@ def C17Lfht_full : Prop := WalkerWaitFree ∧ HopDecreases ∧ CasFailsOnlyByInt
 def C17Lfht_partial : Prop := WalkerWaitFree ∧ HopDecreases ∧ CasFailsOnlyByInterference
 
 theorem walker_wait_free_thm : WalkerWaitFree := by
-  intro c s t hc r ht hw hp hs; exact walker_wait_free hc r ht hw hp hs
+  intro c s t hc r ht hw hp; exact walker_wait_free hc r ht hw hp (walker_no_freed_ahead hc r hp)
 
 theorem hop_decreases : HopDecreases := by
   intro c s p hc r hv p0
